@@ -5,7 +5,7 @@ PROPERTY = 'C10'
 LEAN_PROPS = 'PlumpyModel.Props.C10'
 ASSUMPTIONS = pm_prop.ASSUMPTIONS
 TRUSTED = pm_prop.TRUSTED
-ALPHABET = ['complete', 'completeexc', 'completekilled', 'completecancelled', 'pause', 'play']
+ALPHABET = ['completeV', 'completeexc', 'completekilled', 'completecancelled', 'pause', 'play']
 MONITORS = ['c10', 'c06', 'looperr']      # c06: a work chain whose awaited items have all completed does not stay WAITING
 
 
